@@ -492,7 +492,8 @@ def run(repo, rep, tier):
                         'total %s; parser widths %s)'
                         % (kind, [(x[1], x[2]) for x in seq], total, widths))
     # ---------------- R6 ---------------------------------------------------
-    atom = repo.func(TYP, 'atomic_to_cim_xml')
+    from ..inline import Flat
+    atom = Flat(repo.func(TYP, 'atomic_to_cim_xml'))
     r6.functions.add(atom.fq)
     # flatten the if/elif chain
     chain = []
@@ -536,8 +537,11 @@ def run(repo, rep, tier):
         out = []
         for x in ast.walk(br):
             if isinstance(x, ast.FormattedValue) and x.format_spec is not None:
-                spec = ''.join(str(v.value) for v in x.format_spec.values
-                               if isinstance(v, ast.Constant))
+                spec = ''.join(
+                    str(v.value) if isinstance(v, ast.Constant) else
+                    str(v.value.value) if isinstance(v, ast.FormattedValue)
+                    and isinstance(v.value, ast.Constant) else '?'
+                    for v in x.format_spec.values)
                 m = re.match(r'^\.(\d+)([GgEe])$', spec)
                 if m:
                     digits = int(m.group(1)) + (1 if m.group(2) in 'eE' else 0)
@@ -575,7 +579,8 @@ def run(repo, rep, tier):
         nan_fix = any(
             isinstance(x, ast.If) and isinstance(x.test, ast.Compare) and
             any(const_str(c) == 'NAN' for c in ast.walk(x.test)) and
-            any(isinstance(y, ast.Assign) and const_str(y.value) == 'NaN'
+            any(isinstance(y, (ast.Assign, ast.Return)) and
+                y.value is not None and const_str(y.value) == 'NaN'
                 for y in x.body)
             for x in ast.walk(_Body(br.body)))
         ok = nan_fix and {'INF', '-INF'} <= consts
